@@ -24,7 +24,7 @@ var RespFields = []Field{
 	{"connection", []string{"canon", "absent", "lower", "upper", "padded", "case", "wrong", "dup-same", "triple-same", "dup-conflict", "list"}},
 	{"accept", []string{"canon", "absent", "lower", "upper", "padded", "otherkey", "27", "29", "case", "dup-same", "triple-same", "dup-conflict", "lastchar", "firstchar"}},
 	{"protocol", []string{"absent", "a", "b", "c", "empty"}},
-	{"extensions", []string{"absent", "x", "x;p=1", "z", "malformed", "x, z", "x, y", "two-headers", "x;p=1;r=22, y"}},
+	{"extensions", []string{"absent", "x", "x;p=1", "z", "malformed", "x, z", "x, y", "two-headers", "x;p=1;r=22, y", "x; a01=1; a02=2; a03=3; a04=4; a05=5; a06=6; a07=7; a08=8; a09=9; a10=10; a11=11; a12=12, y"}},
 	{"extra", []string{"none", "before", "between", "after"}},
 	{"order", []string{"canonical", "reversed", "rotated"}},
 	{"lineend", []string{"CRLF", "LF"}},
@@ -443,6 +443,7 @@ func JudgeClient(r Resp, c DialCfg, res DialResult) (sig, detail string) {
 			// parameters: exactly those the server sent for each extension
 			wantParams := map[string][]string{
 				"x": {"x{}"}, "x;p=1": {"x{p=1;}"}, "x, y": {"x{}", "y{}"}, "two-headers": {"x{}", "y{q=2;}"}, "x;p=1;r=22, y": {"x{p=1;r=22;}", "y{}"},
+				"x; a01=1; a02=2; a03=3; a04=4; a05=5; a06=6; a07=7; a08=8; a09=9; a10=10; a11=11; a12=12, y": {"x{a01=1;a02=2;a03=3;a04=4;a05=5;a06=6;a07=7;a08=8;a09=9;a10=10;a11=11;a12=12;}", "y{}"},
 			}
 			if wp, ok := wantParams[r.V("extensions")]; ok {
 				var got []string
